@@ -19,9 +19,20 @@ from vf import sched
 
 _WORD = re.compile(r"\s*([A-Za-z]+)(?:\s+([A-Za-z]+))?")
 STATS = {"statements": 0, "lock_waits": 0}
+_LABELS: dict[str, str] = {}
+POOL: dict[str, list] = {}  # path -> idle real connections (PRAGMAs already applied)
+DDL_DONE: dict[str, set] = {}  # path -> CREATE ... IF NOT EXISTS texts already executed there
+USE_POOL = True
 
 
 def _label(sql: str) -> str:
+    lab = _LABELS.get(sql)
+    if lab is None:
+        lab = _LABELS[sql] = _label_uncached(sql)
+    return lab
+
+
+def _label_uncached(sql: str) -> str:
     m = _WORD.match(sql)
     if not m:
         return "sql"
@@ -38,9 +49,11 @@ def _label(sql: str) -> str:
 
 
 class ConnProxy:
-    def __init__(self, conn: _sqlite3.Connection, path: str) -> None:
+    def __init__(self, conn: _sqlite3.Connection, path: str, pooled: bool = False) -> None:
         object.__setattr__(self, "_c", conn)
         object.__setattr__(self, "_path", path)
+        object.__setattr__(self, "_pooled", pooled)  # PRAGMAs were applied when it was first opened
+        object.__setattr__(self, "_closed", False)
 
     # -- helpers ---------------------------------------------------------
     def _released(self) -> None:
@@ -71,7 +84,9 @@ class ConnProxy:
     def execute(self, sql: str, parameters: Any = (), /) -> Any:
         head = sql.lstrip()[:24].upper()
         if head.startswith("PRAGMA"):
-            if "BUSY_TIMEOUT" in head and sched.ACTIVE is not None:
+            if self._pooled:
+                return None
+            if "BUSY_TIMEOUT" in head and USE_POOL:
                 return self._c.execute("PRAGMA busy_timeout=0")
             try:
                 return self._c.execute(sql, parameters)
@@ -79,6 +94,13 @@ class ConnProxy:
                 if sched.ACTIVE is not None:
                     return self._c.execute("PRAGMA busy_timeout=0")
                 raise
+        if head.startswith("CREATE") and "IF NOT EXISTS" in sql:
+            done = DDL_DONE.setdefault(self._path, set())
+            if sql in done:
+                return None  # same DDL already executed on this file: a no-op by definition
+            cur = self._c.execute(sql, parameters)
+            done.add(sql)
+            return cur
         label = _label(sql)
         cur = self._run(lambda: self._c.execute(sql, parameters), label)
         if head.startswith(("COMMIT", "END", "ROLLBACK")):
@@ -100,8 +122,19 @@ class ConnProxy:
         self._released()
 
     def close(self) -> None:
-        self._c.close()
-        self._released()
+        if self._closed:
+            return
+        object.__setattr__(self, "_closed", True)
+        try:
+            had_tx = self._c.in_transaction
+            if had_tx:
+                self._c.rollback()
+            if USE_POOL:
+                POOL.setdefault(self._path, []).append(self._c)
+            else:
+                self._c.close()
+        finally:
+            self._released()
 
     def __enter__(self) -> "ConnProxy":
         self._c.__enter__()
@@ -119,11 +152,7 @@ class ConnProxy:
 
     def __del__(self) -> None:
         try:
-            self._c.close()
-        except Exception:  # noqa: BLE001
-            pass
-        try:
-            self._released()
+            self.close()
         except Exception:  # noqa: BLE001
             pass
 
@@ -141,10 +170,14 @@ class _SqliteShim(types.ModuleType):
         super().__init__("sqlite3")
 
     def connect(self, database: Any, timeout: float = 5.0, **kw: Any) -> Any:
-        if sched.ACTIVE is not None:
-            timeout = 0.0
+        path = str(database)
+        if USE_POOL:
+            idle = POOL.get(path)
+            if idle:
+                return ConnProxy(idle.pop(), path, pooled=True)
+            timeout = 0.0  # blocking is emulated (see module docstring)
         conn = _sqlite3.connect(database, timeout=timeout, **kw)
-        return ConnProxy(conn, str(database))
+        return ConnProxy(conn, path)
 
     def __getattr__(self, name: str) -> Any:
         return getattr(_sqlite3, name)
@@ -157,3 +190,33 @@ def install_sqlite() -> None:
     from vf import env
 
     env.install(sqlite_shim=SQLITE_SHIM)
+
+
+def forget(path: str) -> None:
+    """The file is about to be replaced: drop idle connections and remembered DDL."""
+    for c in POOL.pop(path, []):
+        try:
+            c.close()
+        except Exception:  # noqa: BLE001
+            pass
+    DDL_DONE.pop(path, None)
+
+
+def reset_db(path: str) -> bool:
+    """Empty every table of an existing database file (schema and idle connections are kept).
+    Returns False if the file does not exist yet."""
+    import os
+
+    if not os.path.exists(path):
+        forget(path)
+        return False
+    idle = POOL.get(path)
+    conn = idle.pop() if idle else _sqlite3.connect(path, timeout=0.0, check_same_thread=False)
+    try:
+        names = [r[0] for r in conn.execute("SELECT name FROM sqlite_master WHERE type='table'").fetchall()]
+        for n in names:
+            conn.execute(f'DELETE FROM "{n}"')
+        conn.commit()
+    finally:
+        POOL.setdefault(path, []).append(conn)
+    return True
